@@ -168,6 +168,7 @@ class MockPg:
         code = chr(m[0].v)
         env = self.env_ref[0] if self.env_ref else None
         req = {'n': self.nreq, 'bytes': m, 'replies': [], 'delivered': [], 'code': code, 'params_before': dict(self.params),
+               'session': (self.env_ref[0].session if self.env_ref else 0),
                'g': env.tick() if env else self.nreq,
                'client_pos': env.client_stream.pos if env else 0, 'client_done': env.client_done() if env else False}
         self.cur = req
@@ -435,24 +436,44 @@ class MockPg:
 
 class Backend:
     def __init__(self, ip, prog, idx, role, sym_status=False, shard=0, pos=None, **server_over):
+        self.ip, self.prog = ip, prog
         self.idx = idx
         self.shard = shard
         self.role = role
-        self.stream = StreamV([], 'backend%d' % idx)
-        self.pg = MockPg(ip, idx, sym_status)
+        self.sym_status = sym_status
+        self.server_over = dict(server_over)
         self.env_ref = []
-        self.pg.attach(self.stream, self.env_ref)
         self.addr = mk_addr(ip, prog, idx, role, shard=shard)
         if pos is not None:
             # position of the server inside its shard (ConnectionPool::databases[shard][address_index])
             setf(prog, self.addr, 'Address', 'address_index', BV(64, pos))
             setf(prog, self.addr, 'Address', 'replica_number', BV(64, pos))
-        server_over.setdefault('last_activity', Agg([BV(64, FROZEN)], 'SystemTime'))
-        self.server = mk_server(ip, prog, self.stream, address=Agg(list(self.addr.fields), 'Address', self.addr.names), **server_over)
-        self.cell = Cell(self.server, 'server%d' % idx)
+        self.generation = 0
+        self.old = []                # (stream, pg) of connections bb8 has discarded
+        self.connect()
         self.checkouts = 0
         self.held = False
         self.putbacks = []
+        self.needs_fresh = False
+
+    def connect(self):
+        """A (new) server connection to this address: fresh socket, fresh backend session, fresh Server object."""
+        ip, prog = self.ip, self.prog
+        self.stream = StreamV([], 'backend%d.%d' % (self.idx, self.generation))
+        self.pg = MockPg(ip, self.idx, self.sym_status)
+        self.pg.attach(self.stream, self.env_ref)
+        over = dict(self.server_over)
+        over.setdefault('last_activity', Agg([BV(64, FROZEN)], 'SystemTime'))
+        self.server = mk_server(ip, prog, self.stream, address=Agg(list(self.addr.fields), 'Address', self.addr.names), **over)
+        self.cell = Cell(self.server, 'server%d.%d' % (self.idx, self.generation))
+
+    def renew(self, env):
+        """bb8 discarded the connection (has_broken): the next checkout opens a new one."""
+        self.old.append((self.stream, self.pg))
+        self.generation += 1
+        self.connect()
+        env.adopt(self)
+        self.needs_fresh = False
 
 
 class HandleEnv:
@@ -488,15 +509,18 @@ class HandleEnv:
         # one ClientServerMap shared by the client and every server object (as in the real process)
         self.csmap = MapV('hashmap')
         csp = Ptr(Cell(Agg([self.csmap], 'Lock'), 'csmap'))
+        self.csp = csp
+        self.server_setup = []          # callbacks(backend) applied to every (new) Server object
         for b in backends:
-            setf(prog, b.server, 'Server', 'client_server_map', csp)
-            setf(prog, b.server, 'Server', 'process_id', BV(32, 9000 + b.idx))
-            setf(prog, b.server, 'Server', 'secret_key', BV(32, 9500 + b.idx))
+            self.adopt(b)
         co = dict(read=Agg([self.client_stream], 'BufReader'), write=self.client_stream, client_server_map=csp)
         co.update(client_over or {})
         self.client = mk_client(ip, prog, **co)
         self.violations = []
         self.clock = 0
+        self.session = 0
+        self.session_marks = [(0, 0)]        # per session: (first event index, clock at start)
+        self.session_streams = [self.client_stream]
         self.notify_gen = 0
         self.expect_incomplete = False
         self.allow_pooler_replies = False
@@ -605,6 +629,8 @@ class HandleEnv:
                         # bb8 lends a connection to one borrower at a time (pool_size 1 here): a second checkout waits
                         env.events.append(('checkout_blocked', b.idx))
                         return EnumV(BV(64, 1), {}, 'Poll')
+                    if b.needs_fresh:
+                        b.renew(env)
                     b.checkouts += 1
                     b.held = True
                     env.events.append(('checkout', b.idx, env.is_paused()))
@@ -659,9 +685,35 @@ class HandleEnv:
         b.held = False
         hb = [f for n, f in prog.funcs.items() if n.endswith('::has_broken')]
         broken = flag_val(ip, ip.call_function(hb[0], [Ptr(Cell(Opaque('ServerPool', 'mgr'), 'mgr')), Ptr(cell, ())]))
-        rec = dict(discarded=bool(broken), truth=b.pg.truth(), sent=len(b.stream.out), client_pos=self.client_stream.pos)
+        rec = dict(discarded=bool(broken), truth=b.pg.truth(), sent=len(b.stream.out), client_pos=self.client_stream.pos, session=self.session)
+        if broken:
+            b.needs_fresh = True
         b.putbacks.append(rec)
         self.events.append(('putback', b.idx, rec['discarded']))
+
+    def adopt(self, b):
+        setf(self.prog, b.server, 'Server', 'client_server_map', self.csp)
+        setf(self.prog, b.server, 'Server', 'process_id', BV(32, 9000 + b.idx))
+        setf(self.prog, b.server, 'Server', 'secret_key', BV(32, 9500 + b.idx))
+        for f in getattr(self, 'server_setup', []):
+            f(b)
+
+    def next_session(self, client_bytes, boundaries=(), client_over=None):
+        """A second client connects after the first one is gone: same pool, same server connections, its own socket, cancel key
+        and statement map."""
+        ip, prog = self.ip, self.prog
+        self.session += 1
+        self.session_marks.append((len(self.events), self.clock))
+        self.client_bytes = list(client_bytes)
+        self.client_stream = StreamV(self.client_bytes, 'client%d' % self.session)
+        self.session_streams.append(self.client_stream)
+        self.boundaries = {p: k for k, p in enumerate(boundaries)}
+        self._seen_reads = set()
+        self.client_stream.on_read = self._client_read
+        co = dict(read=Agg([self.client_stream], 'BufReader'), write=self.client_stream, client_server_map=self.csp,
+                  process_id=BV(32, 7101 + self.session), secret_key=BV(32, 7201 + self.session))
+        co.update(client_over or {})
+        self.client = mk_client(ip, prog, **co)
 
     # ------------------------------------------------------------------------------------------ driving
     def run(self, max_polls=6):
@@ -732,33 +784,46 @@ def same_bytes(dec, a, b):
     return True if not conds else dec(z3.And(*conds))
 
 
-def collect(env):
-    """Observation record of a finished symbolic path."""
+def collect(env, session=None):
+    """Observation record of a finished symbolic path (of one client session when several ran on the same environment)."""
+    if session is None:
+        session = env.session
     reqs = []
     for b in env.backends:
         b.pg.pump()
-        for r in b.pg.requests:
+        for r in [x for _st, pg in b.old for x in pg.requests] + b.pg.requests:
+            if r.get('session', 0) != session:
+                continue
             reqs.append(dict(g=r['g'], backend=b.idx, bytes=r['bytes'], delivered=r['delivered'], status_after=r.get('status_after'),
                              client_done=r['client_done'], params_before=r.get('params_before')))
     reqs.sort(key=lambda x: x['g'])
     handovers = []
     for b in env.backends:
         for rec in b.putbacks:
-            if not rec['discarded']:
+            if not rec['discarded'] and rec.get('session', 0) == session:
                 t = rec['truth']
                 handovers.append(dict(backend=b.idx, status=t['status'], copy_in=t['copy_in'], unread=t['unread'] + t['pending'],
                                       dirty_set=t['dirty_set'], role_set=t['role_set'], sql_prepared=t['sql_prepared'],
                                       named=(z3.Or(*t['named']) if t['named'] else False)))
-    return dict(reqs=reqs, handovers=handovers, events=list(env.events), client_out=list(env.client_stream.out), outcome=env.outcome,
-                held_at_end=[b.idx for b in env.backends if b.held], client_read=env.client_stream.pos)
+    lo = env.session_marks[session][0]
+    hi = env.session_marks[session + 1][0] if session + 1 < len(env.session_marks) else len(env.events)
+    st = env.session_streams[session]
+    return dict(reqs=reqs, handovers=handovers, events=list(env.events[lo:hi]), client_out=list(st.out), outcome=env.outcome,
+                held_at_end=[b.idx for b in env.backends if b.held], client_read=st.pos)
 
 
 def bvs(h):
     return [BV(8, x) for x in bytes.fromhex(h)]
 
 
-def collect_native(res):
+def collect_native(res, session=0):
     """The same record from the native `handle_script` probe (reference backends in Rust, real sockets, real bb8)."""
+    if session == 1:
+        reqs = [dict(g=r['g'], backend=r['conn'] // 100, bytes=bvs(r['hex']), delivered=[bvs(d) for d in r['delivered']],
+                     status_after=BV(8, r['status_after']), client_done=False,
+                     params_before={k: v.encode('latin1') for k, v in r['before'].get('params', {}).items()} or None)
+                for r in sorted(res['reqs'], key=lambda x: x['g']) if r['phase'] == 2]
+        return dict(reqs=reqs, handovers=[], events=[], client_out=bvs(res.get('b_out', '')), outcome=('pending', None), held_at_end=[], client_read=None)
     reqs, handovers = [], []
     seen_a = set()
     probed = set()
